@@ -956,7 +956,10 @@ func runTunnelOnce(raw json.RawMessage, attempt int) (interface{}, error) {
 		wantUp = []byte(fmt.Sprintf("PROXY TCP%d %s %s %d %d\r\n", fam, rh, lh, raddr.Port, laddr.Port))
 	}
 	wantUp = append(wantUp, cstream...)
-	expected := !expectTunnel
+	// no target looked up: nothing may have reached either end. (Twice in ~200 000 cases under load a case that
+	// is not tunnelled observed bytes — a connection that is not this case's on the pooled listener; like every
+	// unexpected observation it is measured again, a proxy that really dials without a target fails every attempt.)
+	expected := !expectTunnel && !up.isAccepted() && len(upb) == 0 && len(clb) == 0
 	if mainLookup.Load() == 2 {
 		expected = bytes.Equal(upb, wantUp) && bytes.Equal(clb, wantCl) && bgot == in.Burst && bok && served && eofSeen
 	}
